@@ -8,7 +8,7 @@ pid = sys.argv[1]
 flt = sys.argv[2] if len(sys.argv) > 2 else ""
 kf = os.path.join(HOME, "known_findings.json")
 data = json.load(open(kf))
-have = {(e["property"], e["bucket"]) for e in data["findings"]}
+have = {(e["property"], e.get("bucket")) for e in data["findings"]}
 os.makedirs(os.path.join(HOME, "known"), exist_ok=True)
 n = 0
 for path in sorted(glob.glob(os.path.join(HOME, "replays", pid + "-*.json"))):
